@@ -56,14 +56,16 @@ RULE = (
     "constructor's 5-90 C, viscosity 3.1e-4-1e-2 or derived, distances from the validity limit to 20x, densities 100-3000, "
     "fc 300-6000 Hz, D over 6 decades, f_diode 5-20 kHz, alpha 0.1-0.8, errors 1e-4-0.2 relative; quick 3000 / thorough "
     "30000 passive, 200/2000 active on synthetic stage+detector signals of 1-5 s) + FixedDiodeModel routing for every "
-    "fixed pattern with 0-3 supplied values (valid, broadcast, shape errors) + analytical Lorentzian fit on exact "
+    "fixed pattern with 0-3 supplied values (valid, broadcast, shape errors; the placed values while the private array is "
+    "reachable, and the public filter value at two frequencies on the same object) + analytical Lorentzian fit on exact "
     "Lorentzians on rational grids (2-250 points) and on noisy / rising / flat / steeper-than-Lorentzian spectra (both "
     "fall-back branches) + malformed stream (constructor arguments on both sides of every validity limit, invalid fixed "
     "diode values, wrong parameter counts). EXPLORATION (not proof): fit_power_spectrum on synthetic spectra inside the "
     "conditioning box 3 f_min <= fc <= 0.3 f_diode (noise-free: recovery to 1e-7; gamma noise of the block size: 10 sigma "
     "+ 0.1 %, chi^2/dof ~ 1; block sizes 20-2000; bias correction on/off), calibrate_force on synthetic time series "
     "(passive and active, public path incl. axial=, drag=, fixed_diode=, fixed_alpha=; axial drawn with probability 1/2 for "
-    "non-hydrodynamic passive runs), estimate_driving_input_parameters on noisy sinusoids. PUBLIC ENTRY POINT, exhaustive "
+    "non-hydrodynamic passive runs), estimate_driving_input_parameters on noisy sinusoids (directly and through the constructor of "
+    "lk.ActiveCalibrationModel). PUBLIC ENTRY POINT, exhaustive "
     "(deterministic, independent of the seed): lk.calibrate_force over hydro x axial x distance{None, at the validity "
     "limit, far} x transferred drag x filter{diode, fast sensor, fixed f_diode, fixed alpha, both} passive and (lateral, no "
     "transferred drag) active, on well-conditioned 1 s records (thorough: x bead {1.2, 4.4 um} x viscosity {given, "
@@ -95,14 +97,46 @@ _cache = {}  # per-run results of the implementation that later ops/oracle calls
 _sig_cache = {}  # synthetic signals (large arrays, bounded)
 
 
-def _lk():
-    from lumicks.pylake.force_calibration import calibration_models as cm
-    from lumicks.pylake.force_calibration import power_spectrum_calibration as psc
-    from lumicks.pylake.force_calibration.calibration_results import CalibrationResults
-    from lumicks.pylake.force_calibration.detail import driving_input, power_models
-    from lumicks.pylake.force_calibration.power_spectrum import PowerSpectrum
+# How the harness reaches pylake (robustness against behaviour-preserving refactorings, DESIGN.md C11):
+#  * what the package exports is taken from the package: lk.PassiveCalibrationModel, lk.ActiveCalibrationModel,
+#    lk.fit_power_spectrum, lk.calibrate_force;
+#  * the anchored mechanisms without a public name (FixedDiodeModel/DiodeModel/NoFilter, CalibrationResults, PowerSpectrum,
+#    detail.power_models.fit_analytical_lorentzian, detail.driving_input.estimate_driving_input_parameters) are imported
+#    from their modules, each where it is used, so that a moved module takes only its own direct tie with it;
+#  * PRIVATE attributes are observed only while they are reachable (`priv`): a renamed one becomes "?" (ignored by
+#    agree/oracle/nontrivial) or is replaced by the same quantity read off the public results - never an implementation
+#    answer.  A case that cannot even be set up without a vanished private name is answered "?" as a whole
+#    (`Unreachable`); the lk.calibrate_force streams keep those configurations tied through the public entry point.
 
-    return cm, psc, CalibrationResults, driving_input, power_models, PowerSpectrum
+
+class Unreachable(Exception):
+    """a private name of pylake the harness needs to SET UP a case is gone: the case cannot be observed"""
+
+
+_reach = {}  # private name -> reachable the last time the harness reached for it (printed in the coverage)
+
+
+def priv(obj, name, fallback="?"):
+    """a private attribute of a pylake object, observed only while it is reachable"""
+    try:
+        v = getattr(obj, name)
+    except AttributeError:
+        _reach[name] = False
+        return fallback
+    _reach[name] = True
+    return v
+
+
+def _pub():
+    import lumicks.pylake as lk
+
+    return lk
+
+
+def _cm():
+    from lumicks.pylake.force_calibration import calibration_models as cm
+
+    return cm
 
 
 # ------------------------------------------------------------------ encoding
@@ -140,12 +174,15 @@ def fl(xs):
 
 
 def show_floats(xs):
-    return "[" + ",".join("nan" if (isinstance(x, float) and math.isnan(x)) else enc_float(x) for x in map(float, xs)) + "]"
+    """bit patterns of doubles; "?" marks an observation that could not be made (unreachable private bookkeeping)"""
+    xs = [x if isinstance(x, str) else float(x) for x in xs]
+    return "[" + ",".join(x if isinstance(x, str) else ("nan" if math.isnan(x) else enc_float(x)) for x in xs) + "]"
 
 
 def parse_floats(s):
+    """inverse of show_floats; an unobserved "?" comes back as None"""
     inner = s.strip()[1:-1]
-    return [] if inner == "" else [dec_float(x) for x in inner.split(",")]
+    return [] if inner == "" else [None if x == "?" else dec_float(x) for x in inner.split(",")]
 
 
 def branch_of(o):
@@ -160,7 +197,7 @@ def branch_of(o):
 
 
 def build_model(o, fixed, active=None):
-    cm = _lk()[0]
+    lk = _pub()
     kw = dict(
         bead_diameter=o["d"],
         viscosity=o["visc"],
@@ -172,16 +209,31 @@ def build_model(o, fixed, active=None):
         fast_sensor=o["fast"],
     )
     if active is None:
-        m = cm.PassiveCalibrationModel(axial=o["axial"], **kw)
+        m = lk.PassiveCalibrationModel(axial=o["axial"], **kw)
     else:
         drive, volts = signals(active)
-        m = cm.ActiveCalibrationModel(
+        m = lk.ActiveCalibrationModel(
             drive, volts, active["rate"], driving_frequency_guess=active["guess"], num_windows=active["nwin"], **kw
         )
+    # the two post-construction modifiers are applied the way lk.calibrate_force applies them (no public setter exists);
+    # calibrate_force(drag=, fixed_diode=, fixed_alpha=) itself is tied by the "calib" streams
     if o.get("drag"):
-        m._set_drag(o["drag"])
+        set_drag = priv(m, "_set_drag", None)
+        if set_drag is not None:
+            set_drag(o["drag"])
+        else:
+            m.drag_coeff = o["drag"]  # public attribute: the bulk drag the results are computed from
     if fixed is not None:
-        m._filter = cm.FixedDiodeModel(fixed[0], fixed[1])
+        cm = _cm()
+        flt = cm.FixedDiodeModel(fixed[0], fixed[1])
+        slot = "_filter"
+        if priv(m, slot, None) is None:
+            # renamed: the slot is recognised by what it holds (the filter the constructor chose), not by its name
+            slots = [k for k, v in vars(m).items() if isinstance(v, (cm.DiodeModel, cm.NoFilter))]
+            if len(slots) != 1:
+                raise Unreachable("_filter")
+            slot = slots[0]
+        setattr(m, slot, flt)
     return m
 
 
@@ -201,14 +253,35 @@ def signals(a):
 
 
 def wrap_results(model, res, fitted):
-    CalibrationResults = _lk()[2]
+    from lumicks.pylake.force_calibration.calibration_results import CalibrationResults
+
     return CalibrationResults(
         model=model, ps_model=None, ps_data=None, params=model.calibration_parameters(), results=res, fitted_params=fitted
     )
 
 
+def reported_bulk_drag(cr, o):
+    """the bulk drag the results report: under its own name when it was transferred from a lateral calibration"""
+    if not o.get("drag"):
+        return cr.theoretical_bulk_drag
+    g = cr.transferred_lateral_drag_coefficient
+    if g is None and _reach.get("_set_drag") is False:
+        g = cr.theoretical_bulk_drag  # the harness had to set the public drag_coeff itself: the field was not renamed
+    return g
+
+
 def passive_observables(model, o, cr):
-    gamma = cr.transferred_lateral_drag_coefficient if o.get("drag") else cr.theoretical_bulk_drag
+    gamma = reported_bulk_drag(cr, o)
+    # the corrected drag and the surface correction as the PUBLIC results imply them (kappa = 2 pi gamma fc): they stand
+    # in for the private attributes when a refactoring has renamed those, so that the position never goes dark
+    drag_pub = corr_pub = "?"
+    try:
+        dp = float(cr.stiffness) * 1e-3 / (2 * math.pi * float(cr.corner_frequency))
+        cp = dp / float(gamma)
+        if math.isfinite(dp) and math.isfinite(cp):
+            drag_pub, corr_pub = dp, cp
+    except (TypeError, ValueError, ZeroDivisionError):
+        pass
     return [
         cr.displacement_sensitivity,
         cr.stiffness,
@@ -216,9 +289,10 @@ def passive_observables(model, o, cr):
         gamma,
         cr.stiffness_std_err,
         cr.displacement_sensitivity_std_err,
-        model._drag,
-        model._drag_correction_factor,
-        model._to_local_drag_coefficient,
+        priv(model, "_drag", drag_pub),  # anchored mechanism; publicly tied by kappa and Rd (model + oracle)
+        priv(model, "_drag_correction_factor", corr_pub),
+        # bookkeeping for the ACTIVE results (local drag = measured x this); publicly tied there, not observable here
+        priv(model, "_to_local_drag_coefficient", "?"),
     ]
 
 
@@ -235,16 +309,17 @@ def impl(case):
         warnings.simplefilter("ignore")
         try:
             return _impl(case, k)
+        except Unreachable:
+            return ["?"] * n_ops(case)
         except Exception as e:  # noqa: BLE001 — mapped to the small enum and compared with the model's answer
             return [errname(e)] * n_ops(case)
 
 
 def n_ops(case):
-    return {"passive": 1, "psd": 1, "active": 1, "route": 2, "anl": 1, "fit": 3, "drive": 0, "filter": 1, "calib": 1}[case["op"]]
+    return {"passive": 1, "psd": 1, "active": 1, "route": 3, "anl": 1, "fit": 3, "drive": 0, "filter": 1, "calib": 1}[case["op"]]
 
 
 def _impl(case, k):
-    cm, psc, CalibrationResults, driving_input, power_models, PowerSpectrum = _lk()
     if k == "passive":
         o = case["o"]
         m = build_model(o, case.get("fixed"))
@@ -258,6 +333,7 @@ def _impl(case, k):
         v = m(case["f"], case["fc"], case["D"], *case["pars"])
         return ["ok " + show_floats([float(np.asarray(v))])[1:-1]]
     if k == "filter":
+        cm = _cm()
         if case["kind"] == "nofilter":
             f = cm.NoFilter()
         elif case["kind"] == "diode":
@@ -267,43 +343,35 @@ def _impl(case, k):
         v = f(case["f"], *case["pars"])
         return ["ok " + show_floats([float(v)])[1:-1]]
     if k == "route":
+        cm = _cm()
         try:
             f = cm.FixedDiodeModel(case["fixed"][0], case["fixed"][1])
         except Exception as e:  # noqa: BLE001
-            return [errname(e)] * 2
-        out = []
+            return [errname(e)] * 3
         try:
             v = f(case["f"], *case["pars"])
-            out.append("ok [" + ",".join("N" if p is None else enc_float(p) for p in f._parameters) + "]")
-            out.append("ok " + enc_float(v))
+            # where the values were placed: the private state of the anchored routing, observed while it is reachable
+            placed = priv(f, "_parameters", None)
+            p0 = "?" if placed is None else "ok [" + ",".join("N" if p is None else enc_float(p) for p in placed) + "]"
+            # ... and the same routing through the public call: the filter value at TWO frequencies determines
+            # (f_diode, alpha^2).  The object is stateful: the second call must not see anything of the first one.
+            v2 = f(route_f2(case), *case["pars"])
+            return [p0, "ok " + enc_float(v), "ok " + enc_float(v2)]
         except Exception as e:  # noqa: BLE001
-            out = [errname(e)] * 2
-        # the object is stateful: a second call with other values must not see the first ones
-        return out
+            return [errname(e)] * 3
     if k == "active":
         o = case["o"]
         m = build_model(o, case.get("fixed"), case["a"])
-        meas = measured(m)
+        a = case["a"]
+        meas = measured(m, (a["rate"], signals(a)[0], a["guess"]))
         _cache[("meas", case_key(case))] = meas
         pars = case["pars"]
         res = m.calibration_results(case["fc"], case["D"], pars, case["efc"], case["eD"], [0.0] * len(pars))
         cr = wrap_results(m, res, [case["fc"], case["D"], *pars])
-        gamma0 = cr.transferred_lateral_drag_coefficient if o.get("drag") else cr.theoretical_bulk_drag
-        obs = [
-            cr.displacement_sensitivity,
-            cr.stiffness,
-            cr.force_sensitivity,
-            gamma0,
-            cr.measured_drag_coefficient,
-            res["local_drag_coefficient"].value,
-            cr.driving_power,
-            res["theoretical_power"].value,
-            res["err_theoretical_power"].value,
-            cr.stiffness_std_err,
-            cr.displacement_sensitivity_std_err,
-        ]
-        return [f"ok {branch_of(o)} " + show_floats(obs)]
+        return [f"ok {branch_of(o)} " + show_floats(active_observables(o, cr, res, meas))]
     if k == "anl":
+        from lumicks.pylake.force_calibration.detail import power_models
+
         ps = make_ps(case["fs"], case["ps"], case["dur"], 1)
         r = power_models.fit_analytical_lorentzian(ps)
         return ["ok " + show_floats([r.fc, r.D, r.sigma_fc, r.sigma_D]) + " " + show_floats(r.ps_fit.power)]
@@ -318,32 +386,82 @@ def _impl(case, k):
     raise ValueError(k)
 
 
-def measured(m):
-    """what ActiveCalibrationModel.__init__ measured on the signals (inputs of the model op)"""
+def measured(m, drive=None):
+    """what ActiveCalibrationModel.__init__ measured on the signals (inputs of the model op).  Two of them are private
+    bookkeeping: the block variance of the response spectrum (-> "perr", None when unreachable: taken from the public
+    results by `active_observables`) and the standard error of the driving amplitude (-> "amp_err"; when the attribute is
+    unreachable it is measured again with the anchored estimator on the same stage signal `drive` = (rate, data, guess);
+    None when that is gone too: the three error entries that depend on it are then not observed)"""
     ps = m.output_power.ps
     idx = int(np.argmax(ps.power))
     df = ps.frequency_bin_width
-    err = float(np.sqrt(ps._variance[idx] / ps.num_points_per_block) * df) if ps._variance is not None else float("nan")
+    var = priv(ps, "_variance", "?")
+    if isinstance(var, str):
+        err = None
+    else:
+        err = float(np.sqrt(var[idx] / ps.num_points_per_block) * df) if var is not None else float("nan")
+    amp_err = priv(m, "_driving_amplitude_err", None)
+    if amp_err is None and drive is not None:
+        try:
+            from lumicks.pylake.force_calibration.detail.driving_input import estimate_driving_input_parameters
+
+            amp_err = estimate_driving_input_parameters(drive[0], drive[1], drive[2])[2] * 1e-6
+        except ImportError:
+            amp_err = None
     return {
         "f": float(m.driving_frequency),
         "amp": float(m.driving_amplitude),
-        "amp_err": float(m._driving_amplitude_err),
+        "amp_err": None if amp_err is None else float(amp_err),
         "maxP": float(ps.power[idx]),
         "df": float(df),
         "perr": err,
     }
 
 
+def active_observables(o, cr, res, meas):
+    if meas["perr"] is None:
+        meas["perr"] = float(res["err_driving_power"].value)  # public: the error of the peak power as reported
+    obs = [
+        cr.displacement_sensitivity,
+        cr.stiffness,
+        cr.force_sensitivity,
+        reported_bulk_drag(cr, o),
+        cr.measured_drag_coefficient,
+        res["local_drag_coefficient"].value,
+        cr.driving_power,
+        res["theoretical_power"].value,
+        res["err_theoretical_power"].value,
+        cr.stiffness_std_err,
+        cr.displacement_sensitivity_std_err,
+    ]
+    if meas["amp_err"] is None:  # the model was not given the amplitude error: what depends on it is not compared
+        obs[8:11] = ["?", "?", "?"]
+    return obs
+
+
+def meas_tokens(meas):
+    return (
+        f"{enc_float(meas['f'])} {enc_float(meas['amp'])} {enc_float(0.0 if meas['amp_err'] is None else meas['amp_err'])} "
+        f"{enc_float(meas['maxP'])} {enc_float(meas['df'])} {enc_float(float('nan') if meas['perr'] is None else meas['perr'])}"
+    )
+
+
+def route_f2(case):
+    """second probe frequency of a routing case"""
+    return 2.5 * case["f"] + 100.0
+
+
 def make_ps(fs, ps, dur, nblock):
-    PowerSpectrum = _lk()[5]
-    obj = PowerSpectrum(np.array([0.0, 1.0, 0.0, -1.0, 0.0, 1.0, 0.0, -1.0]), SAMPLE_RATE)
+    """a PowerSpectrum with the given bins, through its public interface only: constructed on a silent record with as
+    many frequency bins (one block, hence no block variance), then the public attributes / with_spectrum"""
+    from lumicks.pylake.force_calibration.power_spectrum import PowerSpectrum
+
+    n = len(fs)
+    obj = PowerSpectrum(np.zeros(max(2 * (n - 1), 1)), SAMPLE_RATE)
     obj.frequency = np.asarray(fs, dtype=float)
-    obj.power = np.asarray(ps, dtype=float)
+    obj = obj.with_spectrum(np.asarray(ps, dtype=float), int(nblock))
     obj.total_duration = float(dur)
-    obj.num_points_per_block = int(nblock)
     obj.total_sampled_used = int(round(dur * SAMPLE_RATE))
-    obj._fit_range = (float(obj.frequency.min()), float(obj.frequency.max()))
-    obj._variance = None
     return obj
 
 
@@ -376,7 +494,7 @@ def fitted_par_names(c):
 
 
 def impl_fit(c):
-    cm, psc, *_ = _lk()
+    lk = _pub()
     o, fixed = c["o"], c.get("fixed")
     m = build_model(o, fixed)
     f = fit_grid(c)
@@ -389,8 +507,8 @@ def impl_fit(c):
     else:
         power = clean
     ps = make_ps(f, power, c["dur"], n)
-    r1 = psc.fit_power_spectrum(ps, m, bias_correction=True)
-    r0 = psc.fit_power_spectrum(ps, m, bias_correction=False)
+    r1 = lk.fit_power_spectrum(ps, m, bias_correction=True)
+    r0 = lk.fit_power_spectrum(ps, m, bias_correction=False)
     names = fitted_par_names(c)
     info = {
         "fc": r1.corner_frequency,
@@ -412,7 +530,6 @@ def impl_fit(c):
         "fixed_reported": [r1.diode_frequency, r1.diode_relaxation_factor],
         "fitted_diode": r1.fitted_diode,
         "chi2": r1.chi_squared_per_degree,
-        "gamma": m._drag,
     }
     info = {k: (float(v) if isinstance(v, (np.floating, float, int)) and not isinstance(v, bool) else v) for k, v in info.items()}
     _cache[("fit", case_key(c))] = info
@@ -445,10 +562,12 @@ def impl_calib(c):
 
     o, fixed = c["o"], c.get("fixed")
     names = fitted_par_names(c)
-    free = [v for nm, v in zip(("f_diode", "alpha"), (c["fdiode"], c["alpha"])) if nm in names]
+    # the generating model is built directly (public constructor, plain diode filter evaluated at the generating - for
+    # fixed parameters: the fixed - values, so that nothing private is needed to make the record); the model under test
+    # is the one calibrate_force builds
+    free = [] if o["fast"] else [c["fdiode"], c["alpha"]]
     try:
-        # the generating model is built directly (constructor); the model under test is the one calibrate_force builds
-        m0 = build_model(o, fixed)
+        m0 = build_model(o, None)
     except Exception:  # noqa: BLE001 — a configuration the constructor rejects: calibrate_force has to reject it too,
         # it is handed a plain Lorentzian x diode record so that a (wrongly) accepted configuration is fitted and reported
         m0, free = build_model(base_opts(d=o["d"] if o["d"] >= 0.01 else 1.0), None), [c["fdiode"], c["alpha"]]
@@ -490,21 +609,8 @@ def impl_calib(c):
         "n_fitted": len(r.fitted_params),
     }
     if a is not None:
-        info["meas"] = measured(r.model)
-        res = r.results
-        obs = [
-            r.displacement_sensitivity,
-            r.stiffness,
-            r.force_sensitivity,
-            r.theoretical_bulk_drag,
-            r.measured_drag_coefficient,
-            res["local_drag_coefficient"].value,
-            r.driving_power,
-            res["theoretical_power"].value,
-            res["err_theoretical_power"].value,
-            r.stiffness_std_err,
-            r.displacement_sensitivity_std_err,
-        ]
+        info["meas"] = measured(r.model, (c["rate"], drive, a["guess"]))
+        obs = active_observables(o, r, r.results, info["meas"])
     else:
         obs = passive_observables(r.model, o, r)
     _cache[("calib", case_key(c))] = info
@@ -512,15 +618,32 @@ def impl_calib(c):
 
 
 def run_drive(c):
-    driving_input = _lk()[3]
     g = np.random.default_rng(c["subseed"])
     t = np.arange(c["n"]) / c["rate"]
     x = c["amp"] * np.sin(2 * np.pi * c["f"] * t + c["phase"]) + c["offset"] + c["noise"] * g.standard_normal(c["n"])
+    out = {}
+    # direct tie: the anchored estimator (a function of the `detail` package, no public name of its own)
     try:
-        amp, freq, amp_std = driving_input.estimate_driving_input_parameters(c["rate"], x, c["guess"])
-        return {"amp": float(amp), "freq": float(freq), "amp_std": float(amp_std)}
+        from lumicks.pylake.force_calibration.detail import driving_input
+
+        estimate = driving_input.estimate_driving_input_parameters
+    except (ImportError, AttributeError):
+        _reach["detail.driving_input.estimate_driving_input_parameters"] = False
+        out["direct"] = None
+    else:
+        try:
+            amp, freq, amp_std = estimate(c["rate"], x, c["guess"])
+            out["direct"] = {"amp": float(amp), "freq": float(freq), "amp_std": float(amp_std)}
+        except Exception as e:  # noqa: BLE001
+            out["direct"] = {"error": errname(e)}
+    # public tie: the constructor of lk.ActiveCalibrationModel measures the stage signal with the same estimator and
+    # publishes driving_amplitude [m] / driving_frequency [Hz]
+    try:
+        m = _pub().ActiveCalibrationModel(x, x, c["rate"], bead_diameter=1.0, driving_frequency_guess=c["guess"])
+        out["public"] = {"amp": float(m.driving_amplitude) * 1e6, "freq": float(m.driving_frequency)}
     except Exception as e:  # noqa: BLE001
-        return {"error": errname(e)}
+        out["public"] = {"error": errname(e)}
+    return out
 
 
 # ------------------------------------------------------------------ protocol ops
@@ -546,15 +669,15 @@ def ops(case):
         return [
             f"c11.route {eo(fd)} {eo(al)} {fl(case['pars'])}",
             f"c11.filter fixed {eo(fd)} {eo(al)} {enc_float(case['f'])} {fl(case['pars'])}",
+            f"c11.filter fixed {eo(fd)} {eo(al)} {enc_float(route_f2(case))} {fl(case['pars'])}",
         ]
     if k == "active":
         meas = _cache.get(("meas", case_key(case)))
         if meas is None:  # construction failed on the implementation: the model must fail the same way
             meas = {"f": case["a"]["f"], "amp": case["a"]["amp_um"] * 1e-6, "amp_err": 0.0, "maxP": 1.0, "df": 1.0, "perr": 0.0}
         return [
-            f"c11.active {opt_tokens(case['o'])} {filt_tokens(case['o'], case.get('fixed'))} {enc_float(meas['f'])} "
-            f"{enc_float(meas['amp'])} {enc_float(meas['amp_err'])} {enc_float(meas['maxP'])} {enc_float(meas['df'])} "
-            f"{enc_float(meas['perr'])} {enc_float(case['fc'])} {enc_float(case['D'])} {enc_float(case['efc'])} "
+            f"c11.active {opt_tokens(case['o'])} {filt_tokens(case['o'], case.get('fixed'))} {meas_tokens(meas)} "
+            f"{enc_float(case['fc'])} {enc_float(case['D'])} {enc_float(case['efc'])} "
             f"{enc_float(case['eD'])} {fl(case['pars'])}"
         ]
     if k == "anl":
@@ -588,9 +711,8 @@ def ops(case):
             ]
         meas = info["meas"]
         return [
-            f"c11.active {opt_tokens(o)} {filt_tokens(o, fixed)} {enc_float(meas['f'])} "
-            f"{enc_float(meas['amp'])} {enc_float(meas['amp_err'])} {enc_float(meas['maxP'])} {enc_float(meas['df'])} "
-            f"{enc_float(meas['perr'])} {enc_float(info['fc'])} {enc_float(info['D'])} {enc_float(info['efc'])} "
+            f"c11.active {opt_tokens(o)} {filt_tokens(o, fixed)} {meas_tokens(meas)} "
+            f"{enc_float(info['fc'])} {enc_float(info['D'])} {enc_float(info['efc'])} "
             f"{enc_float(info['eD'])} {fl(info['pars'])}"
         ]
     if k == "drive":
@@ -600,6 +722,8 @@ def ops(case):
 
 def agree(case, i, ia, ma):
     k = case["op"]
+    if ia == "?":
+        return True  # not observed (a private name the harness would need is gone): nothing to compare
     if not ia.startswith("ok") and not ia.startswith("b"):
         return ia == ma
     if not (ma.startswith("ok") or ma.startswith("b")):
@@ -614,7 +738,7 @@ def agree(case, i, ia, ma):
     for a, b in zip(ti, tm):
         if a.startswith("["):
             xa, xb = parse_floats(a), parse_floats(b)
-            if len(xa) != len(xb) or not all(close(x, y, 1e-9) for x, y in zip(xa, xb)):
+            if len(xa) != len(xb) or not all(x is None or close(x, y, 1e-9) for x, y in zip(xa, xb)):
                 return False
         elif a.startswith("b") and a[1:].isdigit():
             if not (b.startswith("b") or b == "nan") or not close(dec_float(a), dec_float(b), 1e-9):
@@ -752,6 +876,8 @@ def o_filter_value(o, fixed, f, pars):
 
 def oracle(case, ia):
     k = case["op"]
+    if ia and all(a == "?" for a in ia):
+        return None  # the case could not be set up (see Unreachable): no observation, no verdict
     try:
         return _oracle(case, ia, k)
     except (ValueError, ZeroDivisionError, OverflowError, IndexError) as e:
@@ -843,22 +969,27 @@ def _oracle(case, ia, k):
         fd, al = case["fixed"]
         bad = (al is not None and not 0 <= al <= 1) or (fd is not None and fd <= 0)
         if bad:
-            return None if ia[0] == "ValueError" else f"fixed-diode-validation: expected ValueError, got {ia[0][:60]}"
+            return None if ia[1] == "ValueError" else f"fixed-diode-validation: expected ValueError, got {ia[1][:60]}"
         free = [i for i, v in enumerate(case["fixed"]) if v is None]
         pars = case["pars"]
         if len(pars) != len(free):
             if len(pars) == 1:
                 return None  # NumPy broadcast of a single value: not covered by the property text
-            return None if ia[0] == "ValueError" else f"routing: {len(pars)} values for {len(free)} free positions must be an error, got {ia[0][:60]}"
+            return None if ia[1] == "ValueError" else f"routing: {len(pars)} values for {len(free)} free positions must be an error, got {ia[1][:60]}"
         vals = list(case["fixed"])
         for i, v in zip(free, pars):
             vals[i] = v
         exp0 = "ok [" + ",".join(enc_float(v) for v in vals) + "]"
-        if ia[0] != exp0:
+        if ia[0] != "?" and ia[0] != exp0:
             return f"routing: filter evaluated at {ia[0]} instead of fixed values with fitted ones in order {exp0}"
-        got = dec_float(ia[1].split(" ")[1])
-        exp = o_gdiode(case["f"], vals[0], vals[1])
-        return None if rel_ok(got, exp) else f"routing-value: g_diode={got}, expected {exp}"
+        for a, f in ((ia[1], case["f"]), (ia[2], route_f2(case))):
+            if not a.startswith("ok "):
+                return f"routing: valid fixed pattern and parameter count rejected: {a[:60]}"
+            got = dec_float(a.split(" ")[1])
+            exp = o_gdiode(f, vals[0], vals[1])
+            if not rel_ok(got, exp):
+                return f"routing-value: g_diode({f})={got}, expected {exp} (fixed values with the fitted ones in order)"
+        return None
     if k == "anl":
         if not ia[0].startswith("ok"):
             return None if not case.get("exact") else f"analytical fit failed on an exact Lorentzian: {ia[0]}"
@@ -1023,9 +1154,20 @@ def calib_recovery_clause(c, info):
 
 def oracle_drive(c):
     """EXPLORATION: the Gaussian-window FFT estimator recovers amplitude and frequency"""
-    r = _cache.get(("drive", case_key(c)))
-    if r is None:
+    both = _cache.get(("drive", case_key(c)))
+    if both is None:
         return "drive: no result"
+    for route in ("direct", "public"):
+        r = both[route]
+        if r is None:
+            continue  # the direct tie is gone (module moved): the public route still speaks
+        clause = drive_clause(c, r)
+        if clause:
+            return clause + (" [through lk.ActiveCalibrationModel]" if route == "public" else "")
+    return None
+
+
+def drive_clause(c, r):
     if "error" in r:
         return f"driving-peak[exploration]: {r['error']} for a sinusoid at {c['f']} Hz (guess {c['guess']})"
     dur = c["n"] / c["rate"]
@@ -1046,11 +1188,13 @@ def oracle_drive(c):
 
 def nontrivial(case, ia):
     k = case["op"]
+    if ia and all(a == "?" for a in ia):
+        return False  # nothing was observed
     if k in ("passive", "psd", "active", "filter"):
         if ia[0].startswith("ok"):
             # the model was constructed and every reported number is finite (NaN only for an undefined P_exp error)
             vals = [x for tok in ia[0].split(" ")[1:] if tok.startswith("[") for x in parse_floats(tok)]
-            return all(math.isfinite(x) or math.isnan(x) for x in vals)
+            return all(x is None or math.isfinite(x) or math.isnan(x) for x in vals)
         # a rejection counts when the configuration is outside the documented domain or the parameter count is wrong
         return k == "filter" or o_valid(case["o"], case.get("fixed")) is not None or case.get("stream") == "malformed"
     if k == "route":
@@ -1153,6 +1297,10 @@ def extra_coverage(results):
         "branches": br,
         "dropped_for_margin": f"{illcond} cases so ill-conditioned (1e-9 x scale > 1e-3 |value|) that only a, b (through the fitted "
         "spectrum) were compared, not fc/D/sigma",
+    }
+    cov["private_ties"] = {
+        "label": "private names the harness observes only while reachable (False: renamed/moved - the public ties carry on)",
+        **dict(sorted(_reach.items())),
     }
     cov["generator_margins"] = (
         "axial models: surface distance >= 1.001 radii (Brenner denominator vanishes at contact, condition number 1/(1-R/h)); "
